@@ -171,6 +171,30 @@ func crashCases(c *common) []crashCase {
 		add("builtin", "eval", fmt.Sprintf("(map %s [1 2])\n", name))
 		add("builtin", "eval", fmt.Sprintf("(apply %s [1 2])\n", name))
 	}
+	// (2b) index / slice / positional forms x boundary indices x containers, reads and writes,
+	// at top level and inside a function (a panic in an instruction is not under a builtin's recover)
+	conts := []string{"[1 2 3]", "[]", `"abc"`, `""`, "(list 1 2 3)", "(hash a: 1 b: 2)", "(hash)", "nil", "5", "(raw \"xyz\")"}
+	idxs := []string{"-4", "-3", "-1", "0", "1", "2", "3", "99", "1.5", `"k"`, "a:", "nil", "[0]", "9223372036854775807", "-9223372036854775808"}
+	for ci, ct := range conts {
+		for ii, ix := range idxs {
+			forms := []string{
+				fmt.Sprintf("(def a %s)\n{a[%s]}\n", ct, ix),
+				fmt.Sprintf("(def a %s)\n{a[%s] = 9}\n(len a)\n", ct, ix),
+				fmt.Sprintf("(def a %s)\n(set (arrayidx a [%s]) 9)\n", ct, ix),
+				fmt.Sprintf("(def a %s)\n{a[%s:2]}\n{a[0:%s]}\n", ct, ix, ix),
+				fmt.Sprintf("(def a %s)\n(aget a %s)\n(aset a %s 7)\n", ct, ix, ix),
+				fmt.Sprintf("(def a %s)\n(hpair a %s)\n(slice a %s 2)\n(first a)\n(rest a)\n", ct, ix, ix),
+				fmt.Sprintf("(def a %s)\n(defn wr [i] (set (arrayidx a [i]) 9))\n(wr %s)\n(+ 1 2)\n", ct, ix),
+				fmt.Sprintf("(def a %s)\n(defn wi [i] {a[i] = 9})\n(wi %s)\n(+ 1 2)\n", ct, ix),
+				fmt.Sprintf("(def a %s)\n(hset a %s 1)\n(hget a %s)\n(hdel a %s)\n", ct, ix, ix, ix),
+			}
+			for fi, f := range forms {
+				if c.thorough() || hashSel(c.seed, ci*1000+ii*20+fi, 1, 2) {
+					add("index", "eval", f)
+				}
+			}
+		}
+	}
 	// (3) all strings over a token alphabet up to length 3 (thorough: 4 sampled)
 	toks := []string{"(", ")", "[", "]", "{", "}", "\"", "`", "'", "\\", "a", "1", "-", ":", ".", "/", "*", ";", " ", "\n",
 		"~", "~@", "^", "#", "$", "%", "&", "=", ":=", "->", "//", "/*", "*/", ",", "a:", "1.5e", "0x", "'c'", "\"s\"", "and"}
